@@ -195,7 +195,7 @@ func (c *Ctx) checkValidateBlockBodyHash() {
 		return strings.HasPrefix(f, "call:cbor.Decode(p0,") && strings.HasSuffix(f, "#1 == nil")
 	})
 	guard("segments-arity", "success only if the array has at least the era's segment count", "a block with fewer top-level elements than the era requires can pass", func(f string) bool {
-		return strings.HasPrefix(f, "len(") && strings.HasSuffix(f, " >= p3")
+		return relIs(f, func(x string) bool { return strings.HasPrefix(x, "len(") }, ">=", func(x string) bool { return x == "p3" })
 	})
 	guard("segments-compare", "success only on the equality edge of the hash comparison with the expected body hash", "success is reachable without the computed hash equalling the expected one", func(f string) bool {
 		return strings.HasPrefix(f, "T:call:bytes.Equal(") && strings.Contains(f, "(p1)")
@@ -266,20 +266,46 @@ func (c *Ctx) checkByronProof() {
 				nCalls++
 				d := desc(ci.Value())
 				returned := false
-				for _, s := range succ {
-					if desc(s.(*ssa.Return).Results[0]) == d {
-						returned = true
-					}
-				}
 				tested := false
 				var later []ssa.Instruction
+				phiOK, viaPhi := true, false
 				for _, s := range succ {
-					if desc(s.(*ssa.Return).Results[0]) != d {
+					rv := s.(*ssa.Return).Results[0]
+					if ph, isPhi := rv.(*ssa.Phi); isPhi && ph.Block() == s.Block() {
+						// a result variable: on every incoming edge the value is this check's own result, or the
+						// edge is only taken after this check returned nil
+						viaPhi = true
+						for i, e := range ph.Edges {
+							if e == ssa.Value(ci.Value()) {
+								continue
+							}
+							pred := ph.Block().Preds[i]
+							// not a success on this edge: the value carried is a non-nil error there
+							if edgeImpliesMatch(pred, ph.Block(), func(f string) bool { return f == desc(e)+" != nil" }) || definitelyNonNilErr(e, pred, 0) {
+								continue
+							}
+							okEdge := edgeImpliesMatch(pred, ph.Block(), func(f string) bool { return f == d+" == nil" })
+							if !okEdge {
+								v := c.mustPass(fn, []ssa.Instruction{pred.Instrs[len(pred.Instrs)-1]}, func(f string) bool { return f == d+" == nil" })
+								okEdge = v[0].OK
+							}
+							if !okEdge {
+								phiOK = false
+							}
+						}
+						continue
+					}
+					if desc(rv) == d {
+						returned = true
+					} else {
 						later = append(later, s)
 					}
 				}
+				if viaPhi && phiOK && len(later) == 0 {
+					returned = true
+				}
 				if len(later) > 0 {
-					tested = true
+					tested = phiOK
 					for _, v := range c.mustPass(fn, later, func(f string) bool { return f == d+" == nil" }) {
 						if !v.OK {
 							tested = false
